@@ -175,7 +175,7 @@ class ObsHarness(planh.PlanHarness):
             return msgs, okey
         seq = streams[0]
         ok_run = mr[0] == "ret"
-        only_exc = all(k == "exc" for k in self.fail.values())
+        only_exc = all(k in ("exc", "callerror") for k in self.fail.values())
         msgs += [("C15", m) for m in automaton(seq, ok_run, only_exc, type(mr[1]).__name__ if mr[0] == "exc" else None)]
         if ok_run:
             # independent count: 'run' total of a user scope == number of user calls executed with that scope
@@ -213,7 +213,7 @@ class ObsHarness(planh.PlanHarness):
                 per.setdefault(e[1], []).append(e[2:])
         bad = [r for r, seq in per.items() if ("enter-raised",) in seq]
         ok_run = mr[0] == "ret"
-        only_exc = all(k == "exc" for k in self.fail.values())
+        only_exc = all(k in ("exc", "callerror") for k in self.fail.values())
         for r, seq in sorted(per.items()):
             if r in bad:
                 continue  # its __enter__ raised: it was never started, so it owes (and is owed) nothing
@@ -330,7 +330,7 @@ SHAPES = [
     (2, [], {}, {}, None),
     (4, [(0, 2, "p"), (1, 2, "p"), (2, 3, "p")], {"0": ["s"], "1": ["s"], "3": ["t"]}, {"0": "g", "1": "g"}, [3]),
 ]
-FAILS = [None, {"0": "exc"}, {"1": "exc"}, {"0": "exc", "1": "exc"}, {"1": "base"}, {"2": "sysexit"}]
+FAILS = [None, {"0": "exc"}, {"1": "exc"}, {"0": "exc", "1": "exc"}, {"1": "base"}, {"2": "sysexit"}, {"0": "callerror"}, {"1": "callerror", "0": "exc"}]
 
 
 def cfgs(tier, W):
